@@ -10,6 +10,8 @@ import FordModel.Lemmas.Calls
 import FordModel.CallsLine
 import FordModel.Spec.CallsLine
 import FordModel.Lemmas.CallsLine
+import FordModel.CallsScope
+import FordModel.Lemmas.CallsScope
 namespace Ford.C08
 open Ford Ford.Calls Ford.CallsSpec
 
@@ -160,6 +162,15 @@ theorem declarations_never_scanned_partial (line : Str)
   · exact gate_not_scan _ _ "ATTRIB_RE" "blocklevel0" line 0 (by decide +kernel) (by simp [branchTakes, h])
   · exact gate_not_scan _ _ "USE_RE" "" line 0 (by decide +kernel) (by simp [branchTakes, h])
 
+/-- **COMMON statements are never scanned**, at any block level: an array specification in
+    `common /blk/ a(100)` is no reference (the generated cascade lists COMMON_RE, unguarded,
+    before the CALL branch). -/
+theorem common_statement_never_scanned (line : Str) (bl : Int) (h : commonRe line = true) :
+    gate Generated.C08.guards Generated.C08.cascade line bl ≠ .scan :=
+  gate_not_scan _ _ "COMMON_RE" "" line bl (by decide +kernel) (by simp [branchTakes, h])
+
+example : recordedOf ["common /blk/ w2(10,10), c2", "COMMON zz(3)", "x = fa(1)"] = [["fa"]] := by decide +kernel
+
 /-- … inside a BLOCK construct they are: the declared array `k` is recorded
     (finding C08-block-local-array-recorded). -/
 theorem block_local_array_witness :
@@ -246,5 +257,175 @@ example : recordedOf ["if (fa(1) > 0) call sb(fb(arr(2)), sin(x), 'call g(1)')"]
 
 example : recordedOf ["associate (p => a%get(1), q => a)", "x = p + q%run(2)", "end associate"]
     = [["a", "get"], ["a", "run"]] := by decide +kernel
+
+/-! ### Round 4: which names are variables of the scope (removed at `correlate`) and which are
+    user procedures (kept) - over the generated EXTERNAL filter of `_cleanup`, the generated
+    merge order of `get_label_item` and the generated removed classes of `correlate` -/
+
+/-- **An entity declared with the EXTERNAL attribute - in any spelling of upper and lower case -
+    is no variable of the scope.**  If every type declaration statement that declares `n`
+    carries an attribute whose lower-casing is `external` (`REAL, EXTERNAL :: F`,
+    `real, External :: f`, …), `n` is not among `unit.variables` after `_cleanup`, whatever else
+    the specification part holds.  (Over the *generated* filter: keyword and the normalisation
+    applied to each attribute before the comparison.) -/
+theorem external_attribute_never_variable (u : Scope.Unit) (n : Str)
+    (h : ∀ attrs ents, Scope.SpecStmt.tdecl attrs ents ∈ u.stmts → (∃ e ∈ ents, lower e = n) →
+          ∃ a ∈ attrs, lower a = chars! "external") :
+    n ∉ scopeNames u :=
+  Scope.not_scopeVar_of_attr _ u n (fun a => lower a = chars! "external")
+    (fun a ha => ⟨by simp [Generated.C08.scopeFilter, Scope.normAttr, Scope.applyOp, ha],
+                  Scope.lower_external_kept ha⟩) h
+
+/-- **… and so is an entity named by an EXTERNAL statement** (keyword in any case, with or
+    without `::`), provided no name is declared twice: `real :: f` + `EXTERNAL F`. -/
+theorem external_statement_never_variable (u : Scope.Unit) (n kw : Str) (names : List Str)
+    (hnd : ((Scope.declVars u.stmts).map (fun v => lower v.name)).Nodup)
+    (hst : Scope.SpecStmt.astmt kw names ∈ u.stmts) (hkw : lower kw = chars! "external")
+    (hn : n ∈ names.map (fun x => lower (strip x))) :
+    n ∉ scopeNames u := by
+  have hk : Scope.attrKey kw = chars! "external" := by simp only [Scope.attrKey, hkw]; decide
+  exact Scope.not_scopeVar_of_stmt _ u n hnd kw names hst hn (by rw [hk]; decide) (by rw [hk]; decide)
+    (by rw [hk]; decide)
+
+/-- **A reference to an external function is kept at `correlate`.**  A recorded chain `[n]`
+    whose name is no variable of the unit (e.g. by one of the two theorems above), no dummy
+    argument, not the result variable and no variable or type of the host stays in `calls` -
+    as the procedure of that name if the scope knows one, else as the bare name. -/
+theorem external_function_reference_kept (h : Scope.Host) (u : Scope.Unit) (n : Str) (calls : List Chain)
+    (hv : n ∉ scopeNames u) (ht : n ∉ h.types) (hhv : n ∉ h.vars) (ha : n ∉ u.args.map lower)
+    (hr : ∀ r, u.ret = some r → lower r ≠ n) (hc : [n] ∈ calls) :
+    n ∈ keptCalls h u calls := by
+  apply Scope.mem_resolve_of_kept _ _ _ _ _ hc
+  have hret : n ∉ scopeTab h u "retvar" := by
+    simp only [scopeTab, Scope.layer]
+    cases hu : u.ret with
+    | none => simp
+    | some r => simpa using fun hh => hr r hu hh.symm
+  rcases Scope.lookup_not_var (scopeTab h u) n (by simpa [scopeTab, Scope.layer] using ht)
+      (by simp [scopeTab, Scope.layer]) (by simpa [scopeTab, Scope.layer] using ⟨hhv, hv⟩)
+      (by simpa [scopeTab, Scope.layer] using ha) hret (by simpa [scopeTab, Scope.layer] using hv) with hk | hk
+  · rw [hk]; decide
+  · rw [hk]; decide
+
+/-- **Array elements and other variables are never recorded**: a name that is a variable of the
+    unit is removed from `calls`, whatever the host knows under that name - in particular a local
+    array hides a host procedure of the same name (`variables` is merged last in the generated
+    order, and `FortranVariable` is among the generated removed classes). -/
+theorem declared_variable_never_recorded (h : Scope.Host) (u : Scope.Unit) (n : Str) (calls : List Chain)
+    (hv : n ∈ scopeNames u) : n ∉ keptCalls h u calls := by
+  apply Scope.not_mem_resolve_of_removed
+  rw [Scope.lookup_variables _ _ (by simpa [scopeTab, Scope.layer] using hv)]
+  exact Scope.removed_var
+
+/-- … the same for dummy arguments (`args`), -/
+theorem dummy_argument_never_recorded (h : Scope.Host) (u : Scope.Unit) (a : Str) (calls : List Chain)
+    (ha : a ∈ u.args) : lower a ∉ keptCalls h u calls := by
+  apply Scope.not_mem_resolve_of_removed
+  rw [Scope.lookup_args _ _ (by simp only [scopeTab, Scope.layer]; simpa using ⟨a, ha, rfl⟩)]
+  exact Scope.removed_var
+
+/-- … the result variable of a function (also when it is the function name itself: the table
+    `retvar` is merged after `all_procs`), -/
+theorem result_variable_never_recorded (h : Scope.Host) (u : Scope.Unit) (r : Str) (calls : List Chain)
+    (hr : u.ret = some r) : lower r ∉ keptCalls h u calls := by
+  apply Scope.not_mem_resolve_of_removed
+  rw [Scope.lookup_retvar _ _ (by simp [scopeTab, Scope.layer, hr])]
+  exact Scope.removed_var
+
+/-- … and variables of the host / of USEd modules. -/
+theorem host_variable_never_recorded (h : Scope.Host) (u : Scope.Unit) (n : Str) (calls : List Chain)
+    (hn : n ∈ h.vars) : n ∉ keptCalls h u calls := by
+  apply Scope.not_mem_resolve_of_removed
+  rw [Scope.lookup_all_vars _ _ (by simp [scopeTab, Scope.layer, hn])]
+  exact Scope.removed_var
+
+/-- **Every declared data object is such a variable.**  An entity `e` of a type declaration
+    statement that nowhere gets the EXTERNAL attribute - no attribute of a statement declaring it
+    lower-cases to `external`, no EXTERNAL statement names it - is removed from `calls`, be it a
+    local variable, a dummy argument or the result variable; with any other attributes
+    (`dimension(…)`, `allocatable`, `intent(…)`, `parameter`, `save`, …) in any case and order, and
+    whether its shape comes from the entity declaration, a DIMENSION attribute or a
+    DIMENSION/ALLOCATABLE/POINTER/TARGET statement. -/
+theorem declared_data_object_never_recorded (h : Scope.Host) (u : Scope.Unit) (attrs ents : List Str)
+    (e : Str) (calls : List Chain)
+    (hst : Scope.SpecStmt.tdecl attrs ents ∈ u.stmts) (he : e ∈ ents)
+    (hattr : ∀ attrs' ents', Scope.SpecStmt.tdecl attrs' ents' ∈ u.stmts → e ∈ ents' →
+              ∀ a ∈ attrs', lower a ≠ chars! "external")
+    (hstmt : ∀ kw names, Scope.SpecStmt.astmt kw names ∈ u.stmts →
+              lower e ∈ names.map (fun x => lower (strip x)) → Scope.attrKey kw ≠ chars! "external") :
+    lower e ∉ keptCalls h u calls := by
+  by_cases harg : ∃ a ∈ u.args, lower a = lower e
+  · obtain ⟨a, ha, hae⟩ := harg
+    rw [← hae]; exact dummy_argument_never_recorded h u a calls ha
+  by_cases hret : ∃ r, u.ret = some r ∧ lower r = lower e
+  · obtain ⟨r, hr, hre⟩ := hret
+    rw [← hre]; exact result_variable_never_recorded h u r calls hr
+  apply declared_variable_never_recorded
+  apply Scope.scopeVar_of_declared _ u attrs ents e hst he
+  · intro a ha hae; exact harg ⟨a, ha, hae⟩
+  · intro r hr hre; exact hret ⟨r, hr, hre⟩
+  · intro v hv hvn
+    obtain ⟨v0, hv0, hname, hsub⟩ := Scope.mem_processVars_attribs hv
+    have hv0e : v0.name = e := by rw [← hname]; exact hvn
+    simp only [Scope.hasKw, Generated.C08.scopeFilter, List.contains_eq_mem, List.mem_map,
+      decide_eq_false_iff_not, not_exists, not_and]
+    intro a ha
+    have hnorm : Scope.normAttr ["lower"] a = lower a := by simp [Scope.normAttr, Scope.applyOp]
+    rw [hnorm]
+    rcases hsub a ha with h0 | h0
+    · obtain ⟨attrs', ents', hst', hent', hat'⟩ := Scope.mem_declVars hv0
+      rw [hat'] at h0
+      exact hattr attrs' ents' hst' (by rw [← hv0e]; exact hent') a (List.mem_filter.1 h0).1
+    · obtain ⟨kw, names, hst', hk, hn'⟩ := Scope.attrDict_mem h0
+      rw [hk, Scope.lower_attrKey]
+      exact hstmt kw names hst' (by rw [← hv0e]; exact hn')
+
+/-- **A user procedure the scope knows is kept, as that procedure,** when no variable, dummy
+    argument, result variable or type of the same name hides it. -/
+theorem procedure_reference_kept (h : Scope.Host) (u : Scope.Unit) (n : Str) (calls : List Chain)
+    (hp : n ∈ h.procs) (hv : n ∉ scopeNames u) (ht : n ∉ h.types) (hhv : n ∉ h.vars)
+    (ha : n ∉ u.args.map lower) (hr : ∀ r, u.ret = some r → lower r ≠ n) (hc : [n] ∈ calls) :
+    n ∈ keptCalls h u calls ∧
+      Scope.lookupKind Generated.C08.labelOrder (scopeTab h u) n = .proc := by
+  refine ⟨external_function_reference_kept h u n calls hv ht hhv ha hr hc, ?_⟩
+  have hret : n ∉ scopeTab h u "retvar" := by
+    simp only [scopeTab, Scope.layer]
+    cases hu : u.ret with
+    | none => simp
+    | some r => simpa using fun hh => hr r hu hh.symm
+  exact Scope.lookup_proc (scopeTab h u) n (by simpa [scopeTab, Scope.layer] using hp)
+    (by simpa [scopeTab, Scope.layer] using ht) (by simp [scopeTab, Scope.layer])
+    (by simpa [scopeTab, Scope.layer] using ⟨hhv, hv⟩) (by simpa [scopeTab, Scope.layer] using ha) hret
+    (by simpa [scopeTab, Scope.layer] using hv)
+
+/-- Non-vacuity over the generated tables: `REAL, EXTERNAL :: VNORM`, `real, External :: f2`,
+    `real :: g` + `EXTERNAL G`, an array declared four ways, a dummy array, a local array hiding
+    the host procedure `fb`; references to all of them and to the host procedure `fa`. -/
+theorem external_declarations_resolve_exactly :
+    let u : Scope.Unit :=
+      { stmts := [.tdecl [chars! "EXTERNAL"] [chars! "VNORM"], .tdecl [chars! "External"] [chars! "f2"],
+                  .tdecl [] [chars! "g"], .astmt (chars! "EXTERNAL") [chars! "G"],
+                  .tdecl [chars! "DIMENSION(10)", chars! "Save"] [chars! "A1"], .tdecl [] [chars! "a2", chars! "fb"],
+                  .tdecl [] [chars! "a3"], .astmt (chars! "dimension") [chars! "a3"],
+                  .tdecl [chars! "intent(in)"] [chars! "d"], .tdecl [chars! "allocatable"] [chars! "a4"]],
+        args := [chars! "D"] }
+    let h : Scope.Host := { procs := [chars! "fa", chars! "fb"], types := [chars! "t1"], vars := [chars! "garr"] }
+    scopeNames u = [chars! "a1", chars! "a2", chars! "fb", chars! "a3", chars! "a4"] ∧
+    keptCalls h u [[chars! "vnorm"], [chars! "a1"], [chars! "f2"], [chars! "g"], [chars! "a2"], [chars! "fb"],
+                   [chars! "a3"], [chars! "d"], [chars! "fa"], [chars! "t1"], [chars! "garr"], [chars! "a4"],
+                   [chars! "exts"]]
+      = [chars! "vnorm", chars! "f2", chars! "g", chars! "fa", chars! "exts"] := by
+  decide +kernel
+
+/-- Finding C08-typed-external-function-dropped: a function whose type is declared without
+    EXTERNAL (`real :: ext`, legal) is a variable of the scope, and its reference is removed. -/
+theorem typed_function_without_external_witness :
+    keptCalls {} { stmts := [.tdecl [] [chars! "ext"]] } [[chars! "ext"]] = [] := by decide +kernel
+
+/-- Finding C08-implicitly-typed-array-recorded: an array shaped by a DIMENSION statement and
+    typed implicitly is no variable of the scope; its element reference stays as a call. -/
+theorem implicitly_typed_array_witness :
+    keptCalls {} { stmts := [.astmt (chars! "dimension") [chars! "w2"]] } [[chars! "w2"]] = [chars! "w2"] := by
+  decide +kernel
 
 end Ford.C08
